@@ -39,6 +39,13 @@ type c17Conf struct {
 	Flags      []bool   `json:"flags"` // index i = type i (1..25); index 0 unused
 	IgnoreErr  []string `json:"ignore_error_patterns,omitempty"`
 	IgnoreFile []string `json:"ignore_analysis_patterns,omitempty"`
+	// per-file type rules (luahelper.json only: IgnoreFileErrTypes)
+	FileTypes []c17FileTypes `json:"file_type_rules,omitempty"`
+}
+
+type c17FileTypes struct {
+	File  string `json:"File"`
+	Types []int  `json:"Types"`
 }
 
 func c17AllOn() c17Conf {
@@ -105,6 +112,9 @@ func (cf c17Conf) jsonFile() string {
 	if cf.IgnoreFile != nil {
 		m["IgnoreFileOrFloder"] = cf.IgnoreFile
 	}
+	if cf.FileTypes != nil {
+		m["IgnoreFileErrTypes"] = cf.FileTypes
+	}
 	b, _ := json.Marshal(m)
 	return string(b)
 }
@@ -159,6 +169,19 @@ func c17Expect(base c17View, cf c17Conf, maxType int) c17View {
 		for _, k := range keys {
 			t := c17Type(k)
 			if t >= 1 && t <= 25 && !cf.Flags[t] {
+				continue
+			}
+			ruled := false
+			for _, ft := range cf.FileTypes {
+				if c17Excluded(rel, []string{ft.File}) {
+					for _, x := range ft.Types {
+						if x == t {
+							ruled = true
+						}
+					}
+				}
+			}
+			if ruled {
 				continue
 			}
 			if maxType > 0 && t > maxType {
@@ -337,6 +360,30 @@ func runC17(c *Ctx) {
 		cf.Label = "ignore-analysis:" + p
 		confs = append(confs, cf)
 	}
+	// per-file type rules: one to three rules on different files naming different types (luahelper.json only)
+	{
+		var rels []string
+		for rel := range zoo {
+			if strings.HasSuffix(rel, ".lua") {
+				rels = append(rels, rel)
+			}
+		}
+		sort.Strings(rels)
+		rp := root.Fork(0x66747970)
+		for i := 0; i < c.N(24, 400); i++ {
+			cf := c17AllOn()
+			nr := rp.Range(1, 3)
+			for _, ri := range rp.Perm(len(rels))[:nr] {
+				var ts []int
+				for k := rp.Range(1, 3); k > 0; k-- {
+					ts = append(ts, []int{2, 3, 4, 5, 7, 8, 10, 13, 14, 15, 16, 17, 19, 20}[rp.Intn(14)])
+				}
+				cf.FileTypes = append(cf.FileTypes, c17FileTypes{File: rels[ri], Types: ts})
+			}
+			cf.Label = fmt.Sprintf("file-type-rules-%d", i)
+			confs = append(confs, cf)
+		}
+	}
 	// baselines per delivery mode
 	base := map[string]c17View{}
 	for _, mode := range []string{"init", "change", "json"} {
@@ -372,6 +419,10 @@ func runC17(c *Ctx) {
 	}
 	var jobs []job
 	for _, cf := range confs {
+		if cf.FileTypes != nil {
+			jobs = append(jobs, job{cf, "json"}) // client settings have no per-file type rules
+			continue
+		}
 		jobs = append(jobs, job{cf, "init"}, job{cf, "change"})
 		if cf.IgnoreErr == nil || (cf.IgnoreErr[0] != "(" && cf.IgnoreErr[0] != "[" && cf.IgnoreErr[0] != "*") {
 			jobs = append(jobs, job{cf, "json"})
@@ -433,7 +484,7 @@ func runC17(c *Ctx) {
 		}
 		c.Count("diagnostics_compared", int64(nd))
 		if len(missing) == 0 && len(extra) == 0 {
-			c.Distinct(j.mode + "|" + fmt.Sprint(cf.Master, cf.Flags, cf.IgnoreErr, cf.IgnoreFile))
+			c.Distinct(j.mode + "|" + fmt.Sprint(cf.Master, cf.Flags, cf.IgnoreErr, cf.IgnoreFile, cf.FileTypes))
 			return
 		}
 		kind := "analysis-ignore"
@@ -453,7 +504,7 @@ func runC17(c *Ctx) {
 	c.Sample(map[string]interface{}{"conf": confs[0], "modes": []string{"init", "change", "json"}})
 	c.Sample(map[string]interface{}{"conf": confs[len(confs)-20]})
 	c.Finish("a zoo workspace (6 files in 4 directories) that triggers diagnostic types 1-10 and 12-21 (22, 26 in config-file mode) in several files; configurations: each single "+
-		"flag off, each single flag on, random subsets, master off, error-ignore patterns (file, folder, fixed and generated regular expressions ending in `\\.lua`, `.lua`, `lua` or nothing, non-matching, invalid) and analysis-ignore patterns; each "+
+		"flag off, each single flag on, random subsets, master off, error-ignore patterns (file, folder, fixed and generated regular expressions ending in `\\.lua`, `.lua`, `lua` or nothing, non-matching, invalid) analysis-ignore patterns, and (luahelper.json) one to three per-file type rules naming different types for different files; each "+
 		"delivered as init options, as a later didChangeConfiguration and as luahelper.json; the published view must equal the all-enabled view of the same delivery mode "+
 		"filtered by the configuration. distinct_nontrivial = distinct (mode, configuration) pairs whose view matched exactly", 30)
 }
